@@ -1,5 +1,6 @@
 import EaselModel.Core.Proto
 import EaselModel.Getopts.Model
+import EaselModel.Getopts.WfCheck
 /-! Line-protocol driver for the C14 model (same ops as harness/h_getopts.c). -/
 open EaselModel EaselModel.Proto EaselModel.Getopts
 
@@ -82,7 +83,9 @@ def step (s : S) (line : String) : S × String :=
   | "create" :: _ =>
     if s.g.isSome || s.table.isEmpty then (s, "bad-op") else
     match create s.table with
-    | some g => ({ s with g := some g }, "ok")
+    | some g =>
+      -- the table must lie in the class the theorems (`WF`) and the generator's conventions (`wfStrictB`) assume
+      ({ s with g := some g }, if wfStrictB s.table then "ok" else "ok-table-outside-wfStrict")
     | none => (s, "einval")
   | op :: _ =>
     match s.g with
